@@ -3,7 +3,7 @@
 For every universe the ranks are streamed in order through the code under test while sys.monitoring reports only
 *new* coverage (a line of pymarkdown/ executed for the first time, a branch taken in a direction not seen before).
 A document is kept iff it adds coverage.  Pass 1 runs contiguous shards with fresh coverage state in parallel;
-pass 2 replays the kept documents of all universes in one process (fixed order) and keeps those that still add
+pass 2 replays the kept documents of one universe in one process (rank order) and keeps those that still add
 coverage.  The result (corpus/distilled_<mode>.json: {universe: [ranks]}) is a fixed stratum that the quick tiers
 always evaluate in addition to their seeded sample, so that every line and branch direction the whole universe
 reaches is exercised by at least one quick-tier document.
@@ -189,29 +189,20 @@ def main():
         with open(stage_path, "w") as f:
             json.dump(stage, f, separators=(",", ":"))
         print(f"{un}: size={n} pass1={len(p1)} pass2={len(p2)} {time.time() - t0:.0f}s", flush=True)
-    # pass 3: one process, fixed order over all universes (with branch directions)
+    # The strata are kept PER UNIVERSE (pass 2).  A further global pass over all universes in a fixed order was tried and
+    # dropped: the wraps of the suite's own documents (W1) reach nearly every line and branch, so every other universe's
+    # stratum came out empty, which defeats the purpose (each universe's quick sample gets its own coverage-complete core).
     result = json.load(open(out_path)) if os.path.exists(out_path) else {}
-    nc = NewCoverage()
-    exercise(mode, "warm *up* [l](u)\n\n- a\n\n> b\n")
-    nc.start()
-    try:
-        for un in names:
-            u = engine.get_universe(un)
-            keep = []
-            for r in stage.get(un + "@" + u.checksum(), []):
-                before = nc.new
-                try:
-                    exercise(mode, u.doc(r))
-                except BaseException:
-                    pass
-                if nc.new != before:
-                    keep.append(r)
-            result[un] = keep
-    finally:
-        nc.stop()
+    for key, ranks in stage.items():
+        un, cs = key.rsplit("@", 1)
+        try:
+            if engine.get_universe(un).checksum() == cs:
+                result[un] = ranks
+        except Exception:
+            pass
     with open(out_path, "w") as f:
         json.dump(result, f, separators=(",", ":"))
-    print("pass 3:", {k: len(result[k]) for k in names}, f"{time.time() - t0:.0f}s")
+    print("strata:", {k: len(v) for k, v in result.items()}, f"{time.time() - t0:.0f}s")
 
 
 if __name__ == "__main__":
